@@ -94,26 +94,33 @@ TypeRank(v) ==
   CASE v.t = "null" -> 0 [] v.t = "bool" -> 1 [] v.t = "int" -> 2 [] v.t = "str" -> 3
     [] v.t = "list" -> 4 [] v.t = "set" -> 5 [] v.t = "syn" -> 6 [] v.t = "gn" -> 7
 
+\* place of a syntax node in the source: start, then end (syntax-node references compare by it before anything else; two different
+\* nodes of one place are told apart by kind and node id, which the specification does not order).  tr = <<>>: no tree at hand.
+SynKey(n, tr) == <<tr[n].sr, tr[n].sc, tr[n].er, tr[n].ec>>
+TupLess(p, q) == \E i \in 1..4 : p[i] < q[i] /\ \A j \in 1..(i - 1) : p[j] = q[j]
+
 \* can the order of two distinct values be decided by the specification?
-Decidable(a, b) ==
+Decidable(a, b, tr) ==
   \/ TypeRank(a) # TypeRank(b)
   \/ a.t \in {"bool", "int", "gn", "null"}
+  \/ (a.t = "syn" /\ tr # <<>> /\ SynKey(a.n, tr) # SynKey(b.n, tr))
 
-ValLess(a, b) ==
+ValLess(a, b, tr) ==
   IF TypeRank(a) # TypeRank(b) THEN TypeRank(a) < TypeRank(b)
   ELSE CASE a.t = "bool" -> (~a.b /\ b.b)
          [] a.t = "int"  -> IntLess(a, b)
          [] a.t = "gn"   -> a.g < b.g
+         [] a.t = "syn"  -> TupLess(SynKey(a.n, tr), SynKey(b.n, tr))
          [] OTHER -> FALSE
 
-SetSortable(S) == \A a, b \in S : a = b \/ Decidable(a, b)
+SetSortable(S, tr) == \A a, b \in S : a = b \/ Decidable(a, b, tr)
 
-RECURSIVE SortSet(_)
-SortSet(S) ==
+RECURSIVE SortSet(_, _)
+SortSet(S, tr) ==
   IF S = {} THEN <<>>
-  ELSE LET m == CHOOSE x \in S : \A y \in S : y = x \/ ValLess(x, y)
+  ELSE LET m == CHOOSE x \in S : \A y \in S : y = x \/ ValLess(x, y, tr)
            rest == S \ {m}
-       IN <<m>> \o SortSet(rest)
+       IN <<m>> \o SortSet(rest, tr)
 
 \* ------------------------------------------------------------------ text of a value: Rust's Display ("{}")
 \* tr = node table of the syntax tree (for syntax-node references)
@@ -124,7 +131,7 @@ Display(v, tr) ==
     [] v.t = "int"  -> DecStr(v.hi, v.lo)
     [] v.t = "str"  -> v.s
     [] v.t = "list" -> "[" \o DisplaySeq(v.l, tr, 1) \o "]"
-    [] v.t = "set"  -> "{" \o DisplaySeq(SortSet(v.e), tr, 1) \o "}"
+    [] v.t = "set"  -> "{" \o DisplaySeq(SortSet(v.e, tr), tr, 1) \o "}"
     [] v.t = "syn"  -> "[syntax node " \o tr[v.n].kind \o " (" \o NatStr(tr[v.n].sr + 1) \o ", " \o NatStr(tr[v.n].sc + 1) \o ")]"
     [] v.t = "gn"   -> "[graph node " \o NatStr(v.g) \o "]"
 DisplaySeq(l, tr, i) ==
@@ -133,10 +140,10 @@ DisplaySeq(l, tr, i) ==
   ELSE Display(l[i], tr) \o ", " \o DisplaySeq(l, tr, i + 1)
 
 \* is the text of v determined by the specification (sets must be sortable, all the way down)?
-RECURSIVE Displayable(_)
-Displayable(v) ==
-  CASE v.t = "list" -> \A i \in 1..Len(v.l) : Displayable(v.l[i])
-    [] v.t = "set"  -> SetSortable(v.e) /\ \A x \in v.e : Displayable(x)
+RECURSIVE Displayable(_, _)
+Displayable(v, tr) ==
+  CASE v.t = "list" -> \A i \in 1..Len(v.l) : Displayable(v.l[i], tr)
+    [] v.t = "set"  -> SetSortable(v.e, tr) /\ \A x \in v.e : Displayable(x, tr)
     [] OTHER -> TRUE
 
 \* does the text of v mention a graph-node number?
@@ -221,7 +228,7 @@ FormatGo(f, i, args, ai, acc, tr) ==
          IF d = "{" THEN FormatGo(f, i + 2, args, ai, acc \o "{", tr)
          ELSE IF d = "}" THEN
             IF ai > Len(args) THEN [ok |-> FALSE, kind |-> "InvalidParameters"]
-            ELSE IF ~Displayable(args[ai]) THEN [ok |-> FALSE, kind |-> "Unsupported"]
+            ELSE IF ~Displayable(args[ai], tr) THEN [ok |-> FALSE, kind |-> "Unsupported"]
             ELSE FormatGo(f, i + 2, args, ai + 1, acc \o Display(args[ai], tr), tr)
          ELSE [ok |-> FALSE, kind |-> "FunctionFailed"]
     ELSE IF c = "}" THEN
@@ -295,7 +302,7 @@ Call(fn, args, g, tr) ==
          ELSE IF args[1].t # "list" THEN FnErr("ExpectedList")
          ELSE IF Len(args) >= 2 /\ args[2].t # "str" THEN FnErr("ExpectedString")
          ELSE IF Len(args) > 2 THEN FnErr("InvalidParameters")
-         ELSE IF ~Displayable(args[1]) THEN FnErr("Unsupported")
+         ELSE IF ~Displayable(args[1], tr) THEN FnErr("Unsupported")
          ELSE LET sep == IF Len(args) = 2 THEN args[2].s ELSE ""
                   ss == [i \in 1..Len(args[1].l) |-> Display(args[1].l[i], tr)]
               IN FnOk(VStr(JoinStrs(ss, sep, 1)), g)
